@@ -22,10 +22,13 @@ Vals == <<
    Obj(<<"x">>, <<N(6)>>)
 >>
 
+Big == [t |-> "num", q |-> 2000000000, big |-> TRUE]
 (* extra values for the extended universe (formats etc.; no oracle there) *)
 VX == << S(<<"2","0","2","0","-","0","1","-","0","1">>),
          S(<<"2","0","2","0","-","0","1","-","0","1","T","0","0",":","0","0",":","0","0","Z">>),
-         S(<<"a","b","c","=">>), N(8000), Obj(<<"x">>, <<S(<<"k">>)>>) >>
+         S(<<"a","b","c","=">>), N(8000), Obj(<<"x">>, <<S(<<"k">>)>>),
+         \* 10^19: an integer beyond int64 (exact in float64); "big" tells the realiser to write it out in full
+         Big, Obj(<<"x">>, <<Big>>), Arr(<<Big>>) >>
 
 (* C19: the same shapes with a unique marker string at every string leaf; "Mq<d>" occurs *)
 (* in no schema text of the universe (checked by MarkerDiscipline in MC_C19).            *)
